@@ -63,21 +63,33 @@ LETTERS = 'ACGTBDEFHIJKLMNOPQRS'       # alphabets up to 20 characters (the firs
 
 SCOPE = {
     'quick': ('ENUMERATED WALK (python body of _fast_shuffle under an enumerating permutation source, inside the public dinucleotide_shuffle, whole sequence): every outcome of every '
-              'internal permutation for every sequence of length <= 8 (alphabet 2), <= 7 (alphabet 3), <= 6 (alphabet 4) with n = 1 and of length <= 5 with n = 2 '
+              'internal permutation for every sequence of length <= 8 (alphabet 2), <= 7 (alphabet 3), <= 6 (alphabet 4) with n = 1, of length <= 5 with n = 2 and of length <= 4 with n = 3 '
               '(one public call per sequence, all outcomes run inside it on the real successor tables, suspect outcomes re-run as their own call); one public call per outcome for length <= 4; '
-              '120 sampled sequences of (alphabet, length) in {(3,8), (4,7), (4,8)}, all outcomes each.  '
+              '120 sampled sequences of (alphabet, length) in {(3,8), (4,7), (4,8)}, all outcomes each (at most 3000 outcomes per sequence; the pinned walk needs <= 720).  '
+              'WALK IN A REGION: 160 sampled (sequence of length 4-8, region of length >= 3 with a flank, n in {1,2}): all outcomes inside a public call on [start, end).  '
+              'SAMPLED WALK: 1200 sequences of length 9-70 over alphabets 2-6 (half of them on a sampled region, n in {1,2,3}), one sampled outcome of all internal permutations each '
+              '(python body, consumption of every transition asserted).  '
               'COMPILED FUNCTIONS: alphabets 2-4, every length L <= 8, every region 0 <= start < end <= L plus default end with start 0 and 1; '
               'shuffle with n in {1,2} (2 seeds for n = 1) on one batch of all A^L sequences (every k-th, 4096 sequences, when A^L > 4096 and the region is not the whole sequence); '
               'dinucleotide_shuffle with n = 1 on one batch of all A^L sequences when A^L <= 512, else every k-th sequence (1024 for the whole region, 128 for other regions); '
               'dinucleotide_shuffle with n in {2,3}: one call per sequence, all sequences of length 3-5, whole region; '
               '300 seeded random longer cases for both functions (L 9-150, 1-4 sequences incl. low-complexity ones, random region / default end, n up to 5 resp. 20, '
-              'dtypes int8/float32/int64, 15% non-contiguous inputs, seeds in [0, 2^31-8] and 2^32-8).  Determinism: every call repeated after disturbing the numpy, numba and torch generators '
-              '(dinucleotide batches: whole-region calls and A^L <= 64 only)'),
-    'thorough': ('ENUMERATED WALK: every outcome of every internal permutation for every sequence of length <= 8 over alphabets 2, 3 and 4 with n = 1 (467,915 outcomes) and of '
-                 'length <= 6 with n = 2 (43,065 outcomes); one public call per outcome for length <= 5.  '
+              'dtypes int8/float32/int64, 15% non-contiguous inputs, seeds in [0, 2^31-8] and 2^32-8).  '
+              'VARIANTS: 600 seeded random cases for both functions with alphabets 2-6 and 20, L 4-90, 1-3 sequences, dtypes int8/uint8/int16/int32/int64/float16/float32/float64/bool, '
+              'end given as -1 ... -6 (33%), start / end / n all omitted (12%), seed passed as numpy.int64 (repeat call with the python int), as None, as RandomState (shuffle only; no determinism clause '
+              'for the last two), verbose=True for dinucleotide_shuffle (repeat call with verbose=False must agree), repeat call on another memory layout of the same values (35%).  '
+              'LONG: 8 cases per function with L in {257, 300, 1000, 33000, 40000, 66000, 68000, 70000} (whole sequence, default end, or a region with both flanks longer than 2^15 resp. 2^16).  '
+              'Determinism: every call repeated after disturbing the numpy, numba and torch generators '
+              '(dinucleotide batches: whole-region calls and A^L <= 64 only).  If the python body of the walk indexes out of bounds, the compiled dinucleotide_shuffle calls are skipped '
+              '(they could kill the process) and the violations of the enumerated walk are reported'),
+    'thorough': ('ENUMERATED WALK: every outcome of every internal permutation for every sequence of length <= 8 over alphabets 2, 3 and 4 with n = 1 (467,915 outcomes), of '
+                 'length <= 6 with n = 2 (43,065 outcomes) and of length <= 5 with n = 3; one public call per outcome for length <= 5.  '
+                 'WALK IN A REGION: 1200 sampled (sequence, region, n in {1,2}), all outcomes.  SAMPLED WALK: 8000 sequences of length 9-70, alphabets 2-6, one sampled outcome each.  '
                  'COMPILED FUNCTIONS: alphabets 2-4, every L <= 8, every region plus default end; shuffle with n in {1,2,3} on all A^L sequences; dinucleotide_shuffle n = 1 on all '
                  'sequences when A^L <= 4096 or the region is the whole sequence, else every k-th sequence (2048; 8192 for default end); dinucleotide_shuffle n in {2,3}: one call per '
-                 'sequence, all sequences of length 3-6, whole region + 2 sampled regions of length >= 3; 4000 seeded random longer cases (L 9-400)'),
+                 'sequence, all sequences of length 3-6, whole region + 2 sampled regions of length >= 3; 4000 seeded random longer cases (L 9-400); '
+                 '5000 variant cases (alphabets 2-6 and 20, nine dtypes, negative ends, omitted arguments, numpy-integer / None / RandomState seeds, verbose, memory layout) and '
+                 '40 long cases (L 257 - 70,500) per function, as described for the quick tier'),
 }
 
 
@@ -341,16 +353,25 @@ def check_call(case, info=None):
         except Exception as ex:
             same = False
         if not same:
-            how = ''.join([', first call with the seed as numpy.int64 and second as int' if seedkind == 'npint' else '',
-                           ', first call with verbose=True and second with verbose=False' if verbose else '',
-                           ', second call on the same values in another memory layout' if case.get('layout') else ''])
+            varied = [w for w, on in (('the seed given as numpy.int64 instead of int', seedkind == 'npint'), ('verbose=True instead of False', verbose),
+                                      ('another memory layout of the same values', bool(case.get('layout')))) if on]
+            how = ''
+            if varied:                      # which of the two is it: plain repeat of the FIRST call (same seed object kind, verbose, layout)
+                try:
+                    _disturb(seed % 1000 + 1)
+                    Y3 = _call(fn, X0.clone(), s_arg, end, n_arg, _seed_arg(seed, seedkind), verbose)
+                    plain = isinstance(Y3, torch.Tensor) and Y3.shape == Y.shape and torch.equal(Y3, Y)
+                except Exception:
+                    plain = False
+                how = (' (an exact repeat of the first call reproduces it: the result depends on %s)' if plain else
+                       ' (even an exact repeat of the first call differs; the calls also differed in %s)') % ' / '.join(varied)
             out.append('not deterministic: a second call with the same (input, region, n, seed=%d) returned a different result%s' % (seed, how))
     return out
 
 
 def _minimise(case, viol):
     """try to reproduce a batch violation on the single offending sequence"""
-    if 'all_len' not in case and 'gen' not in case and len(case.get('seqs', [])) <= 1:
+    if ('gen' in case and case['gen']['B'] == 1) or ('all_len' not in case and 'gen' not in case and len(case.get('seqs', [])) <= 1):
         return case, viol
     import re
     m = re.search(r'\(example (\d+)\)', viol[0])
@@ -405,6 +426,9 @@ def _report(rep, stats, what, case, finding):
 
 
 def _do_call(rep, case, key, section, stats, sample=None):
+    if stats.get('unsafe') and case['fn'] == 'dinuc':
+        stats['compiled dinuc calls skipped'] = stats.get('compiled dinuc calls skipped', 0) + 1
+        return False
     info = {}
     viol = check_call(case, info)
     returned = info.get('returned', False)
@@ -581,6 +605,12 @@ def _walk_level(seq, A, n, args):
     return out
 
 
+# most outcomes enumerated for ONE sequence.  The pinned walk needs at most 6! = 720 (n = 1, length 8) resp. (4!)^2 = 576
+# (n = 2, length 6); a changed walk can ask for permutations of the whole table for every character (length-8 homopolymer
+# over 4 characters: 720^4 outcomes), which would stall the driver inside one sequence without ever reporting
+MAX_OUTCOMES = 3000
+
+
 def _session(A, seq, n, trail, enumerate_all, region=None, sampler=None):
     """ONE call of the public dinucleotide_shuffle on the region (default: the whole sequence) with
     ersatz._fast_shuffle replaced by its python body under the enumerating source.  The arrays handed
@@ -601,6 +631,9 @@ def _session(A, seq, n, trail, enumerate_all, region=None, sampler=None):
         if enumerate_all:
             t = []
             while t is not None:
+                if ses['outcomes'] >= MAX_OUTCOMES:
+                    ses['truncated'] = True
+                    break
                 a2 = [x.copy() if isinstance(x, numpy.ndarray) else x for x in args]
                 _SRC.reset(t)
                 err = None
@@ -613,6 +646,8 @@ def _session(A, seq, n, trail, enumerate_all, region=None, sampler=None):
                 tr = _SRC.trail[:_SRC.pos]
                 ses['outcomes'] += 1
                 ses['trails'].append(tr)
+                if err is not None:
+                    ses['errors'] = ses.get('errors', 0) + 1
                 if err is not None or _walk_level(reg, A, n, a2):
                     ses['suspects'].append(tr)
                 t = _SRC.advance()
@@ -685,8 +720,17 @@ def _sampled_walk(rep, A, seq, n, region, wseed, stats):
     stats['walk sampled'] = stats.get('walk sampled', 0) + 1
     if not ses['returned']:
         stats['walk sampled raised'] = stats.get('walk sampled raised', 0) + 1
+        if ses.get('raised') == 'IndexError':
+            stats['walk errors'] = stats.get('walk errors', 0) + 1
     for w in _judge(ses, A, seq, n, None, region):
         _report(rep, stats, 'dinuc walk: ' + w, case, _finding(w))
+
+
+def _truncated(rep, stats, A, seq, n):
+    stats['walk truncated'] = stats.get('walk truncated', 0) + 1
+    if stats['walk truncated'] == 1:
+        rep.note('NOT EXHAUSTIVE: the walk asked for more than %d permutation outcomes for one sequence (first: %s, alphabet %d, n=%d; the pinned walk needs at most 720); '
+                 'only the first %d outcomes of such sequences are enumerated' % (MAX_OUTCOMES, seq, A, n, MAX_OUTCOMES))
 
 
 def _enumerate_walks(rep, A, seq, n, stats, precise=False, region=None):
@@ -699,6 +743,7 @@ def _enumerate_walks(rep, A, seq, n, stats, precise=False, region=None):
     rc = {} if region is None else {'start': region[0], 'end': region[1]}
     if precise:
         trail = []
+        count = 0
         while trail is not None:
             case = dict({'kind': 'walk', 'A': A, 'seq': seq, 'n': n, 'trail': trail}, **rc)
             info = {}
@@ -711,6 +756,10 @@ def _enumerate_walks(rep, A, seq, n, stats, precise=False, region=None):
             if not info['walked']:
                 break
             trail = _SRC.advance()
+            count += 1
+            if count >= MAX_OUTCOMES and trail is not None:
+                _truncated(rep, stats, A, seq, n)
+                break
         return
     ses = _session(A, seq, n, [], True, region)
     info = {}
@@ -725,6 +774,10 @@ def _enumerate_walks(rep, A, seq, n, stats, precise=False, region=None):
                  sample=dict(case, outcomes=k) if i == 0 else None, section=section)
     if not ses['walked']:
         stats['walk not reached'] = stats.get('walk not reached', 0) + 1
+    if ses.get('truncated'):
+        _truncated(rep, stats, A, seq, n)
+    if ses.get('errors'):
+        stats['walk errors'] = stats.get('walk errors', 0) + ses['errors']
     if ses.get('unsupported') and 'unsupported' not in stats:
         stats['unsupported'] = ses['unsupported']
         rep.note('HARNESS LIMIT: the walk uses numpy.random.%s, which the enumerating source does not model; its outcomes are not covered' % ses['unsupported'])
@@ -812,10 +865,10 @@ def run(rep):
                 if L <= precise_L:
                     _enumerate_walks(rep, A, seq, 1, stats, precise=True)
                     _enumerate_walks(rep, A, seq, 2, stats, precise=True)
-    if done:
+    if done and not stats.get('walk truncated'):
         rep.mark_exhaustive('dinucleotide walk: every permutation outcome of every sequence of length <= %s (alphabet 2/3/4), n=1; length <= %d, n=2'
                             % ('/'.join(str(full[a]) for a in (2, 3, 4)), full2) + '; length <= %d, n=3' % full3)
-    else:
+    elif not done:
         rep.note('time budget reached inside the enumerated walk')
     if not thorough:
         for k in range(120):
@@ -847,6 +900,13 @@ def run(rep):
             region = (s0, rng.randint(s0 + 3, L))
         _sampled_walk(rep, A, _rand_seq(rng, A, L), rng.choice([1, 1, 2, 3]), region, rng.randrange(0, 2 ** 31), stats)
     mark('walk region/sampled')
+    if stats.get('walk errors'):
+        # the python body of the walk indexed out of bounds: the compiled walk has no bounds checks, the same outcome
+        # there can kill the process before anything is reported
+        stats['unsafe'] = True
+        rep.note('the python body of the walk raised IndexError for %d enumerated / sampled outcomes (%d violations reported so far); the calls of the COMPILED '
+                 'dinucleotide_shuffle are skipped in this run (no bounds checks there: the same outcome can crash the process)'
+                 % (stats.get('walk errors', 0), len(rep.violations)))
 
     # ---- (a') variants of the call: rarely used arguments, alphabets, dtypes, seed kinds, long inputs ----
     for k in range(5000 if thorough else 600):
@@ -878,7 +938,7 @@ def run(rep):
                     'strided': rng.random() < 0.15, 'seedkind': rng.choice(['int', 'npint', 'npint', 'none', 'rs' if fn == 'shuffle' else 'int']),
                     'verbose': fn == 'dinuc' and rng.random() < 0.6, 'layout': rng.random() < 0.35}
             _do_call(rep, case, ('V', fn, k), fn + '-variant', stats, sample=case if k < 1 else None)
-    long_L = [257, 300, 1000, 33000, 66000, 70000]
+    long_L = [66000, 300, 33000, 70000, 1000, 257, 40000, 68000]
     for k in range(40 if thorough else 8):
         if over(0.6):
             break
@@ -889,9 +949,9 @@ def run(rep):
             s0, end = 0, L
         elif r < 0.5 or L < 600:
             s0, end = rng.randrange(0, L - 256), None
-        else:
-            s0 = rng.randrange(0, L - 300)
-            end = rng.randint(s0 + 257, L)              # region itself longer than 256
+        else:                                           # both flanks present, region itself beyond 8- / 16-bit positions
+            s0 = rng.randrange(0, 200)
+            end = rng.randint(L - 200, L)
         for fn in ('shuffle', 'dinuc'):
             case = {'kind': 'call', 'fn': fn, 'A': A, 'gen': {'B': rng.randint(1, 2), 'L': L, 'seed': rng.randrange(0, 2 ** 31), 'mode': rng.choice(['uniform', 'runs'])},
                     'start': s0, 'end': end, 'n': rng.choice([1, 2]), 'seed': rng.randrange(0, 2 ** 31 - 8), 'dtype': rng.choice(['int8', 'float32']), 'det': True}
